@@ -106,8 +106,9 @@ def run_property(pid, tier, write=True, root=None):
         visited |= set(it.visited_funcs)
         decorated_ok |= set(it.decorated_ok)
     try:
-        from .props.common import python_traps, dtype_store_sweep
+        from .props.common import python_traps, dtype_store_sweep, input_assertions
         python_traps(rep, prog, visited)
+        input_assertions(rep, prog, visited)
         dtype_store_sweep(rep, prog, _core.ALL_INTERPS)
     except Exception:
         traceback.print_exc()
